@@ -20,6 +20,8 @@ from fractions import Fraction
 import numpy as np
 
 from ..exact import Pure, case_rng, describe, present_nd
+from ..pool import run_pool, worker_driver
+from . import c14_skcert as skc
 from toqito.matrix_props import is_block_positive, sk_operator_norm
 from toqito.state_ops import schmidt_decomposition
 from toqito.state_props import (concurrence, entanglement_of_formation, is_product, l1_norm_coherence, log_negativity,
@@ -38,14 +40,31 @@ RULE = ("pure states: every pair of local dimensions in {2,3,4}^2 x every Schmid
         ">= 2 parties with a non-identity local rotation; distinct = hash of the exact case description. "
         "Presentation: every ndarray argument of every toqito call (state vectors, column vectors, density matrices / operators, dim arrays) is a re-presentation "
         "of the same values determined by the case (C / Fortran / strided / permuted-stride layout; zero imaginary part also as float64, integer values also as "
-        "int64; dim arrays keep their integer dtype), and after every call all arguments are compared with a deep snapshot")
+        "int64; dim arrays keep their integer dtype), and after every call all arguments are compared with a deep snapshot. "
+        "S(k) operator norm with a CERTIFIED two-sided bracket (process pool): projections onto completely entangled subspaces (span{|i,j> - |i+1,j-1>}: the first r basis "
+        "vectors, seeded sub-selections and random r-dimensional subspaces of it, also rotated by Haar local unitaries and scaled by 5/2, 3/10) of every rank r <= (dA-1)(dB-1) on 2x3, "
+        "2x4, 3x3 and ranks 2, 3, 6 on 3x4 (all six in the thorough tier), projections containing a product vector, random positive semidefinite operators (k = 1 .. min(dA,dB)), "
+        "indefinite Hermitian operators, the zero operator, effort = 0 / 1 / 2; per operator the exact dyadic image of the float matrix is the instance, an upper certificate "
+        "(dual point of the PPT relaxation for k = 1, of the reduction-map relaxation for k >= 2, from an independent CLARABEL solve, rounded and repaired) and a lower certificate "
+        "(explicit vector with k product terms, second factors exactly orthogonal) are judged by the Lean checkers; demanded: lower bound <= UB + tol, upper bound >= LB - tol; "
+        "non-trivial = UB - LB <= 1e-3*scale.  is_block_positive(rho^T_B +- 0.15*1, 1) against the certified bracket of sup <v|(c - W)|v>.  "
+        "Weakly entangled states: planted Schmidt vectors with one or two coefficients of relative size 1e-8, 1e-9, 1e-10, 1e-12 (exact rationals, exact Cayley local unitaries or none; "
+        "all dim forms; schmidt_rank, is_product, schmidt_decomposition, sk_vector_norm) and product + 2^-s * second product with s in {27, 30, 33, 37} (vectors) / {27, 30, 33} (operators), "
+        "kept only if exactly representable and the second singular value is >= 100x the largest cut-off (N * 2.3e-16) of any routine.  "
+        "dim argument: schmidt_rank is compared with the Lean mirror that receives the RAW argument (omitted / integer / pair) and resolves it itself; operators also with the 2-D form [[dA,dB],[dA,dB]]")
 ASSUMPTIONS = [
     "rounding an exact vector/matrix over Q[i] to float64 moves every entry by <= 2^-53 relative; LAPACK svd / eigvals / nuclear norm are accurate to 1e-9*scale on these inputs (sizes <= 16)",
     "concurrence and the two-qubit mixed entanglement of formation take square roots of eigenvalues that can be exactly 0 (rank-deficient states): rounding 1e-16 becomes 1e-8, so they are compared with 1e-6 (closed form) and 1e-5 (invariance)",
     "numpy.linalg.matrix_rank uses the cut-off max(M,N)*eps*sigma_max: exact-rank inputs have float noise ~1e-16, non-zero singular values are >= 1e-7 relative",
     "entanglement_of_formation needs a 2-D input (column vector or matrix): 1-D arrays are not in its domain and are not generated",
     "the l1-norm of coherence is basis dependent; its invariance is checked under local incoherent unitaries (phase x permutation matrices), the only local unitaries that preserve it for every state",
-    "S(k) operator norm and block positivity: certification is one-sided except on operators with a closed form (a*I + b*|psi><psi|, rank one, projectors containing a Schmidt-rank-k vector): upper >= every explicit rank-<=k vector value; lower <= upper; tolerance 1e-3*max(1, operator norm) because cvxpy solves these Hermitian SDPs with SCS (observed deviations from closed forms up to 3e-5)",
+    "S(k) operator norm and block positivity: tolerance 1e-3*max(1, operator norm) because cvxpy solves these Hermitian SDPs with SCS (observed deviations from closed forms up to 3e-5). "
+    "The certified bracket [LB, UB] is exact (Lean checkers over Q[i]) for the exact dyadic image of the float operator; the candidates (CLARABEL dual solve, alternating maximisation) are untrusted. "
+    "UB is the optimum of the PPT (k = 1) / reduction-map (k >= 2) relaxation up to 1e-6, so on operators where the relaxation has a gap (e.g. rank-3 completely entangled projection on 3x3: 0.8014 vs 0.7941) "
+    "the lower side is certified only up to that gap (counted as sk_cert/uncertified-wide).  For indefinite Hermitian operators the routine brackets sup |<w|X|v>| over two vectors, of which only the attained "
+    "values |<v|X|v>| are certified (one-sided)",
+    "weakly entangled states: the clean cut-offs are eps*max(dim)*s_max (matrix_rank, schmidt_decomposition) and eps*prod(dim)*s_max (is_product), i.e. <= 3.6e-15 relative for the sizes generated; planted small coefficients are >= 1e-12 relative "
+    "(>= 280 x cut-off); rounding the exact rotated vector to float64 moves singular values by <= 1.2e-16*s_max; operator Schmidt ranks of |psi><psi| are not requested for these states (coefficients s_i*s_j would fall below the cut-off)",
     "is_block_positive returns a RuntimeError object (not raised) when undetermined; inputs have margin >= 10% from the boundary, an undetermined answer there is reported",
     "exact Cayley unitaries, exact products and the rank certificates are produced by the harness in Fraction arithmetic (untrusted) and verified exactly by the Lean driver (unitarity, rank certificate, planted norm)",
 ]
@@ -570,8 +589,19 @@ def check_schmidt_decomposition(ctx, t, case, psi, tr, reg):
                         if full and float(resid) > TOL_DEC:
                             bad = f"sum_i s_i u_i (x) v_i does not rebuild the state (exact residual {float(resid):.2e})"
                         elif not full:
-                            # truncated: the residual vector must have norm^2 = sum of the dropped squares (distinct values only make this sharp)
-                            pass
+                            # truncated to the kp largest terms: psi - sum_{c<kp} s_c u_c (x) v_c is orthogonal to the kept part and has squared norm = the sum
+                            # of the dropped squares (true for every choice of singular vectors when coefficients tie)
+                            r2 = Fraction(0)
+                            for a in range(dA):
+                                for b in range(dB):
+                                    acc = ZERO
+                                    for c in range(keep):
+                                        acc = acc + CQ(se[c]) * ue[a][c] * ve[b][c]
+                                    dev = acc - psi_e[a * dB + b]
+                                    r2 += dev.re * dev.re + dev.im * dev.im
+                            want2 = sum(x * x for x in svals[kp:m])
+                            if abs(float(r2) - want2) > 1e-9:
+                                bad = f"truncation to {kp} terms leaves a residual of squared norm {float(r2)!r}, the dropped squares sum to {want2!r}"
                 if bad:
                     t.fail(f"schmidt_decomposition({form}, dim={dform}, k_param={kp}) on {dA}x{dB}, s={case['s']}: {bad}",
                            function="schmidt_decomposition", input=form, dim_form=dform, k_param=kp, impl=bad)
@@ -776,7 +806,21 @@ def check_product(ctx, case):
     if case["entangle"] is not None:
         i, j = case["entangle"]
         g = [f2[k] if k in (i, j) else f1[k] for k in range(n)]
-        x = x + kron_all(g) * 2.0 ** (-case["shift"])  # exact in float64: small integers times a power of two
+        base, add = x, kron_all(g)
+        x = x + add * 2.0 ** (-case["shift"])  # exact in float64: small integers times a power of two
+        sh = 1 << case["shift"]
+        if not all(Fraction(float(z.real)) == Fraction(int(a.real)) + Fraction(int(b.real), sh) and Fraction(float(z.imag)) == Fraction(int(a.imag)) + Fraction(int(b.imag), sh)
+                   for z, a, b in zip(x.reshape(-1), base.reshape(-1), add.reshape(-1))):
+            ctx.count("product/not-exactly-representable (skipped)")
+            return
+        if n == 2 and case["shift"] > 20:
+            # weakly entangled: the second singular value across the cut must be >= 100 x the largest cut-off any of the routines uses
+            dA_, dB_ = dims
+            M_ = (x.reshape(dA_, dB_, dA_, dB_).transpose(0, 2, 1, 3).reshape(dA_ * dA_, dB_ * dB_) if opr else x.reshape(dA_, dB_))
+            sv_ = np.linalg.svd(M_, compute_uv=False)
+            if 0 < sv_[1] / sv_[0] < 100 * M_.size * 2.3e-16 or sv_[1] / sv_[0] < 1e-15:
+                ctx.count("product/weak: second coefficient within 100x of the cut-off or accidentally product (skipped)")
+                return
     # exact oracle from the Lean model: product iff product across every cut (k | k+1)
     N = int(np.prod(dims))
     xe = xm_from(x)
@@ -827,10 +871,18 @@ def check_product(ctx, case):
     if n == 2:
         dA, dB = dims
         r = ctx.lean().ask("c14_op" if opr else "c14_vec", {"dA": dA, "dB": dB, ("rho" if opr else "psi"): xm_json(xe)})
-        res = _call(schmidt_rank, x, [dA, dB])
-        if res[0] != "ok" or res[1] != r["rank_spec"]:
-            t.fail(f"schmidt_rank({'operator' if opr else 'vector'}, [{dA},{dB}]) = {res[1]!r}, exact rank {r['rank_spec']}",
-                   function="schmidt_rank", input="dm" if opr else "vec1d", dim_form="list", dA=dA, dB=dB, impl=repr(res[1]), expected=r["rank_spec"])
+        for dform, dim in dim_forms(dA, dB):
+            # the Lean mirror gets the RAW argument (omitted / integer / pair) and resolves it itself (C14.schmidtRankArg_scalar / _omitted / _pair)
+            raw = None if dim is None else (int(dim) if dform == "scalar" else [dA, dB])
+            ra = ctx.lean().ask("c14_op" if opr else "c14_vec", {"dA": dA, "dB": dB, ("rho" if opr else "psi"): xm_json(xe), "dimarg": raw})
+            if ra["rank_dimarg"] != r["rank_spec"]:
+                t.fail(f"Lean mirror of the dim argument ({dform}) gives rank {ra['rank_dimarg']}, the pair form gives {r['rank_spec']} (model defect)", model=ra["rank_dimarg"])
+                continue
+            res = with_dim(schmidt_rank, x, dim=dim)
+            if res[0] != "ok" or res[1] != ra["rank_dimarg"]:
+                t.fail(f"schmidt_rank({'operator' if opr else 'vector'}, [{dA},{dB}], dim={dform}) = {res[1]!r}, exact rank {r['rank_spec']}"
+                       + (f" (second term scaled by 2^-{case['shift']}: a small but non-zero Schmidt coefficient)" if case["entangle"] is not None else ""),
+                       function="schmidt_rank", input="dm" if opr else "vec1d", dim_form=dform, dA=dA, dB=dB, impl=repr(res[1]), expected=r["rank_spec"])
 
 
 # ------------------------------------------------------------------------------------------------ planted operator Schmidt rank
@@ -869,7 +921,41 @@ def check_oprank(ctx, case):
             if res[0] != "ok" or res[1] != want:
                 t.fail(f"operator schmidt_rank({tag} sum of {case['r']} products on {dA}x{dB}, dim={dform}) = {res[1]!r}, exact rank {want}",
                        function="schmidt_rank", input="dm", dim_form=dform, dA=dA, dB=dB, impl=repr(res[1]), expected=want)
-        res = _call(schmidt_decomposition, Y, [dA, dB])
+        # the 2-D dimension form [[rows of A, rows of B], [columns of A, columns of B]] and the truncation parameter of the operator decomposition
+        d2 = np.array([[dA, dB], [dA, dB]])
+        ctx.case({"fn": "schmidt_rank_op", "dA": dA, "dB": dB, "r": case["r"], "tag": tag, "dim": "array2d", "A": case["A"][0]["re"][:4]}, True, f"oprank/{dA}x{dB}/{tag}/dim=array2d")
+        res = _call(schmidt_rank, Y, d2)
+        if res[0] != "ok" or res[1] != want:
+            t.fail(f"operator schmidt_rank({tag}, dim=[[{dA},{dB}],[{dA},{dB}]]) = {res[1]!r}, exact rank {want}",
+                   function="schmidt_rank", input="dm", dim_form="array2d", dA=dA, dB=dB, impl=repr(res[1]), expected=want)
+        res = _call(is_product, Y, d2)
+        verdict = None
+        if res[0] == "ok":
+            try:
+                verdict = bool(np.asarray(res[1][0]).reshape(-1)[0])
+            except Exception:  # noqa: BLE001
+                verdict = None
+        if verdict is None or verdict != (want <= 1):
+            t.fail(f"is_product(operator, dim=[[{dA},{dB}],[{dA},{dB}]]) -> {res[1] if res[0] != 'ok' else verdict!r}; exact operator Schmidt rank {want}",
+                   function="is_product", input="dm", dim_form="array2d", impl=(res[1] if res[0] != "ok" else repr(verdict)), expected=(want <= 1))
+        full = _call(schmidt_decomposition, Y, [dA, dB])
+        for dform, dim, kp in (("array2d", d2, 0), ("scalar", dA, 0), ("list/k_param=1", [dA, dB], 1)):
+            res = _call(schmidt_decomposition, Y, dim, kp)
+            if res[0] != "ok" or full[0] != "ok":
+                t.fail(f"operator schmidt_decomposition(dim={dform}) raised {res[1]}", function="schmidt_decomposition", input="dm", dim_form=dform, impl=res[1])
+                continue
+            sv0 = np.asarray(full[1][0]).reshape(-1)
+            sv = np.asarray(res[1][0]).reshape(-1)
+            am, bm = np.asarray(res[1][1]), np.asarray(res[1][2])
+            cnt = want if kp == 0 else kp
+            okk = len(sv) == cnt and am.shape == (dA, dA, cnt) and bm.shape == (dB, dB, cnt) and np.max(np.abs(sv - sv0[:cnt])) <= 1e-9 * max(1.0, sv0[0])
+            if okk and kp == 0:
+                reb = sum(sv[i] * np.kron(am[:, :, i], bm[:, :, i]) for i in range(len(sv)))
+                okk = np.max(np.abs(reb - Y)) <= 1e-9 * max(1.0, np.max(np.abs(Y)))
+            if not okk:
+                t.fail(f"operator schmidt_decomposition({tag}, dim={dform}) on {dA}x{dB}: coefficients {sv.tolist()} / shapes {am.shape}, {bm.shape}; "
+                       f"the list-dim call gives {sv0.tolist()} (exact rank {want})", function="schmidt_decomposition", input="dm", dim_form=dform, impl=sv.tolist())
+        res = full
         if res[0] != "ok":
             t.fail(f"operator schmidt_decomposition raised {res[1]}", function="schmidt_decomposition", input="dm", dim_form="list", impl=res[1])
         else:
@@ -1014,9 +1100,338 @@ def check_sk(ctx, case):
             t.fail(f"is_block_positive of a non-Hermitian matrix = {res[1]!r}", function="is_block_positive", impl=repr(res[1]), expected=False)
 
 
+
+# ------------------------------------------------------------------------------------------------ S(k) operator norm: certified two-sided bracket
+
+WIDTH_OK = 1e-3   # certified intervals wider than this (times the scale) are counted as uncertified-wide; never a violation by themselves
+
+
+def ces_basis(dA, dB):
+    """columns |i,j> - |i+1,j-1> (0 <= i < dA-1, 1 <= j < dB): a basis of a completely entangled subspace of dimension (dA-1)(dB-1)"""
+    cols = []
+    for i in range(dA - 1):
+        for j in range(1, dB):
+            v = np.zeros(dA * dB, dtype=complex)
+            v[i * dB + j] = 1
+            v[(i + 1) * dB + (j - 1)] = -1
+            cols.append(v)
+    return np.array(cols).T
+
+
+def _haar(rng, d):
+    z = rng.normal(size=(d, d)) + 1j * rng.normal(size=(d, d))
+    q, r = np.linalg.qr(z)
+    return q * (np.diag(r) / np.abs(np.diag(r)))
+
+
+def make_skcert_case(rng, dA, dB, k, variant, r=None, rot=False, c="1", s=None):
+    return {"kind": "skcert", "dA": dA, "dB": dB, "k": k, "variant": variant, "r": r, "rot": bool(rot), "c": c, "shift": s,
+            "seed": int(rng.integers(1 << 30))}
+
+
+def build_sk_operator(case):
+    """the float operator handed to toqito (a function of the case alone), and the closed-form value where there is one"""
+    rng = np.random.default_rng(case["seed"])
+    dA, dB, variant, r = case["dA"], case["dB"], case["variant"], case["r"]
+    N = dA * dB
+    truth = None
+    hints = []
+    if variant in ("ces", "cesrand"):
+        B = ces_basis(dA, dB)
+        D = B.shape[1]
+        if variant == "ces":
+            cols = B[:, rng.permutation(D)[:r]] if case["rot"] else B[:, :r]
+        else:
+            cols = B @ (rng.normal(size=(D, r)) + 1j * rng.normal(size=(D, r)))
+        if case["rot"]:
+            cols = np.kron(_haar(rng, dA), _haar(rng, dB)) @ cols
+        q, _ = np.linalg.qr(cols)
+        X = q @ q.conj().T
+    elif variant == "prodproj":
+        a = rng.normal(size=dA) + 1j * rng.normal(size=dA)
+        b = rng.normal(size=dB) + 1j * rng.normal(size=dB)
+        e = np.kron(a, b)
+        hints = [e]
+        cols = np.column_stack([e] + [rng.normal(size=N) + 1j * rng.normal(size=N) for _ in range(r - 1)])
+        q, _ = np.linalg.qr(cols)
+        X = q @ q.conj().T
+        truth = 1.0
+    elif variant == "psd":
+        G = rng.normal(size=(N, r)) + 1j * rng.normal(size=(N, r))
+        X = G @ G.conj().T
+        X = X / np.trace(X).real
+    elif variant == "indef":
+        G = rng.normal(size=(N, N)) + 1j * rng.normal(size=(N, N))
+        X = G + G.conj().T
+        X = X / np.linalg.norm(X, 2)
+    elif variant == "zero":
+        X = np.zeros((N, N), dtype=complex)
+    elif variant == "witness":
+        # W = (|psi><psi|)^{T_B} + s*1: block positive iff s >= 0 (a product vector in the kernel of the partial transpose exists)
+        m = min(dA, dB)
+        sv = np.sort(rng.uniform(0.4, 1.0, size=m))[::-1]
+        sv = sv / np.linalg.norm(sv)
+        A = np.zeros((dA, dB), dtype=complex)
+        for i in range(m):
+            A[i, i] = sv[i]
+        psi = (_haar(rng, dA) @ A @ _haar(rng, dB).T).reshape(-1)
+        rho = np.outer(psi, psi.conj())
+        X = skc.pt_b(rho, dA, dB) + float(Fraction(case["shift"])) * np.eye(N)
+    else:
+        raise ValueError(variant)
+    X = float(Fraction(case["c"])) * X
+    X = (X + X.conj().T) / 2
+    if truth is not None:
+        truth = truth * float(Fraction(case["c"]))
+    return X, truth, hints
+
+
+def _sk_certify(lean, X, dA, dB, k, rng, want_upper=True, hints=()):
+    """certified (LB, UB) as Fractions (None where the candidate was rejected / could not be built) and the rejection reasons"""
+    why = []
+    UB = LB = None
+    if want_upper:
+        up = skc.upper_certificate(X, dA, dB, k, ppt=(k == 1))
+        if up is None:
+            why.append("upper: no candidate")
+        else:
+            ans = lean.ask("c14_sk_upper_ppt" if k == 1 else "c14_sk_upper_red", up[0])
+            if "ok" in ans:
+                UB = skc.frac_of(ans)
+            else:
+                why.append(f"upper: {ans.get('reject')}")
+    v = skc.best_rank_k_vector(rng, X, dA, dB, k, hints=hints)
+    ans = lean.ask("c14_sk_lower", skc.lower_certificate(X, dA, dB, k, v))
+    if "ok" in ans:
+        LB = skc.frac_of(ans)
+    else:
+        why.append(f"lower: {ans.get('reject')}")
+    return LB, UB, why
+
+
+def check_skcert(ctx, case):
+    dA, dB, k, variant = case["dA"], case["dB"], case["k"], case["variant"]
+    N = dA * dB
+    lean = ctx.lean()
+    t = Tally(ctx, "skcert", case, "C14.checkSkUpperPPT_sound / checkSkUpperRed_sound (every unit vector of Schmidt rank <= k has <v|X|v> <= UB) / "
+              "checkSkLower_sound (LB is attained by such a vector) / sk_lower_le_upper / schmidtLE_iff_rank_le")
+    X, truth, hints = build_sk_operator(case)
+    rng = np.random.default_rng(case["seed"] + 1)
+    scale = float(np.linalg.norm(X, 2))
+    tol = TOL_SDP * max(1.0, scale)
+    psd = float(np.min(np.linalg.eigvalsh(X))) >= -1e-12 * max(1.0, scale)
+    desc = {"fn": "sk_operator_norm", "cert": True, "dA": dA, "dB": dB, "k": k, "variant": variant, "r": case["r"], "rot": case["rot"], "c": case["c"],
+            "shift": case["shift"], "seed": case["seed"]}
+    if variant == "witness":
+        return _check_block_positive(ctx, t, lean, case, X, rng, desc)
+    if variant == "zero":
+        ctx.case(dict(desc, dim="list"), False, f"sk_cert/{dA}x{dB}/k={k}/zero")
+        res = _call(sk_operator_norm, X, k, [dA, dB])
+        if res[0] != "ok" or not (float(np.real(res[1][0])) == 0.0 and float(np.real(res[1][1])) == 0.0):
+            t.fail(f"sk_operator_norm of the zero operator = {res[1]!r}: every attained value is 0", function="sk_operator_norm", impl=repr(res[1]), expected=[0.0, 0.0])
+        return
+    if psd:
+        LB, UB, why = _sk_certify(lean, X, dA, dB, k, rng, hints=hints)
+    else:
+        # indefinite Hermitian: the routine brackets sup |<w|X|v>| >= |<v|X|v>|; only the attained values are certified (one-sided)
+        LBp, _, why = _sk_certify(lean, X, dA, dB, k, rng, want_upper=False)
+        LBm, _, why2 = _sk_certify(lean, -X, dA, dB, k, rng, want_upper=False)
+        why = why + why2
+        LB = max([x for x in (LBp, LBm) if x is not None], default=None)
+        UB = None
+    for w in why:
+        ctx.count(f"sk_cert/uncertified/{w[:60]}")
+    if LB is not None and UB is not None and LB > UB:
+        t.fail(f"certified lower bound {float(LB)!r} exceeds certified upper bound {float(UB)!r} (contradicts C14.sk_lower_le_upper: model / driver defect)",
+               model=[float(LB), float(UB)])
+        return
+    if truth is not None and ((LB is not None and float(LB) > truth + 1e-9) or (UB is not None and float(UB) < truth - 1e-9)):
+        t.fail(f"certified interval [{LB and float(LB)!r}, {UB and float(UB)!r}] excludes the closed form {truth!r} (harness defect)", model=[str(LB), str(UB)])
+        return
+    tight = LB is not None and UB is not None and float(UB - LB) <= WIDTH_OK * max(1.0, scale)
+    if psd:
+        ctx.count("sk_cert/certified-tight" if tight else "sk_cert/uncertified-wide")
+    forms = [("list", [dA, dB], None)] + ([("scalar", dA, None)] if case["seed"] % 3 == 0 else []) + ([("omitted", None, None)] if dA == dB and case["seed"] % 3 == 1 else [])
+    if psd and variant in ("psd", "ces", "cesrand") and case["seed"] % 2 == 0 and k < min(dA, dB):
+        forms += [("list/effort=0", [dA, dB], 0), ("list/effort=1", [dA, dB], 1)]     # no SDP / first SDP only: the analytic and randomised bounds alone must bracket too
+    for dform, dim, effort in forms:
+        ctx.case(dict(desc, dim=dform), bool(tight) or not psd, f"sk_cert/{dA}x{dB}/k={k}/{variant}/dim={dform}")
+        if effort is not None:
+            res = _call(sk_operator_norm, X, k, dim, None, effort)
+        else:
+            res = _call(sk_operator_norm, X, k) if dim is None else _call(sk_operator_norm, X, k, dim)
+        if res[0] != "ok":
+            if "Numerical problems" in str(res[1]) or "SolverError" in str(res[1]):
+                ctx.count("sk_norm/solver-numerical-failure")
+                continue
+            t.fail(f"sk_operator_norm raised {res[1]} on a valid {dA}x{dB} operator (k={k}, {variant})", function="sk_operator_norm", dim_form=dform, impl=res[1])
+            continue
+        try:
+            lo, hi = float(np.real(res[1][0])), float(np.real(res[1][1]))
+        except Exception:  # noqa: BLE001
+            t.fail(f"sk_operator_norm returned {res[1]!r}, not a pair of bounds", function="sk_operator_norm", dim_form=dform, impl=repr(res[1]))
+            continue
+        info = {"function": "sk_operator_norm", "dim_form": dform, "impl": [lo, hi], "certified": [LB is not None and float(LB), UB is not None and float(UB)]}
+        if lo > hi + tol:
+            t.fail(f"sk_operator_norm: lower bound {lo!r} exceeds upper bound {hi!r} ({dA}x{dB}, k={k}, {variant}, {dform})", **info)
+        if hi > scale + tol:
+            t.fail(f"sk_operator_norm: upper bound {hi!r} exceeds the operator norm {scale!r}", **info)
+        if LB is not None and hi < float(LB) - tol:
+            t.fail(f"sk_operator_norm: upper bound {hi!r} is below the value {float(LB)!r} attained by an explicit (verified) vector of Schmidt rank <= {k} "
+                   f"({dA}x{dB}, {variant}, rank {case['r']}, {dform})", **info)
+        if psd and UB is not None and lo > float(UB) + tol:
+            t.fail(f"sk_operator_norm: lower bound {lo!r} exceeds the certified upper bound {float(UB)!r} on every value attained by vectors of Schmidt rank <= {k} "
+                   f"({dA}x{dB}, {variant}, rank {case['r']}, {dform})", **info)
+        if not psd and lo > scale + tol:
+            t.fail(f"sk_operator_norm: lower bound {lo!r} exceeds the operator norm {scale!r} (indefinite Hermitian input)", **info)
+        if k >= min(dA, dB) and not (close(lo, scale, 1e-9) and close(hi, scale, 1e-9)):
+            t.fail(f"sk_operator_norm with k >= min(dim) must return the operator norm {scale!r}: [{lo!r}, {hi!r}]", expected=scale, **info)
+
+
+def _check_block_positive(ctx, t, lean, case, W, rng, desc):
+    """is_block_positive(W, 1) against the certified bracket of sup <v|(c*1 - W)|v> over unit product vectors: W is block positive iff that sup <= c"""
+    dA, dB, k = case["dA"], case["dB"], case["k"]
+    N = dA * dB
+    c = float(np.linalg.norm(W, 2))
+    Cm = c * np.eye(N) - W
+    Cm = (Cm + Cm.conj().T) / 2
+    LB, UB, why = _sk_certify(lean, Cm, dA, dB, k, rng)
+    for w in why:
+        ctx.count(f"block_positive/uncertified/{w[:60]}")
+    want = None
+    if UB is not None and float(UB) <= c * (1 - 1e-2):
+        want = True
+    elif LB is not None and float(LB) >= c * (1 + 1e-2):
+        want = False
+    ctx.case(dict(desc, fn="is_block_positive"), want is not None, f"block_positive_cert/{dA}x{dB}/k={k}/{'undetermined' if want is None else ('yes' if want else 'no')}")
+    if want is None:
+        ctx.count("block_positive/uncertified-margin")
+        return
+    if want != (Fraction(case["shift"]) >= 0):
+        t.fail(f"certified block-positivity verdict {want} contradicts the construction (shift {case['shift']}) (harness defect)", model=[str(LB), str(UB)])
+        return
+    for dform, dim in (("list", [dA, dB]), ("scalar", dA)):
+        res = _call(is_block_positive, W, k, dim)
+        if res[0] != "ok":
+            if "Numerical problems" in str(res[1]):
+                ctx.count("block_positive/solver-numerical-failure")
+                continue
+            t.fail(f"is_block_positive raised {res[1]}", function="is_block_positive", dim_form=dform, impl=res[1])
+        elif not isinstance(res[1], (bool, np.bool_)) or bool(res[1]) != want:
+            t.fail(f"is_block_positive(rho^T_B + ({case['shift']})*1, k={k}, dim={dform}) = {res[1]!r}; certified: sup over product vectors of <v|(c - W)|v> in "
+                   f"[{LB and float(LB)!r}, {UB and float(UB)!r}] with c = {c!r}, so the verdict is {want} ({dA}x{dB})",
+                   function="is_block_positive", dim_form=dform, impl=repr(res[1]), expected=want)
+
+
+class _WorkerCtx:
+    """the part of the run context that the checks use, backed by a pool Result and the worker's own Lean driver"""
+
+    def __init__(self, res):
+        self.res = res
+
+    def case(self, *a, **k):
+        self.res.case(*a, **k)
+
+    def violation(self, what, info):
+        self.res.violation(what, info)
+
+    def count(self, key, k=1):
+        self.res.count(key, k)
+
+    def lean(self):
+        return worker_driver()
+
+
+def pooled_work(case, res):
+    run_case(_WorkerCtx(res), case)
+
+
+# ------------------------------------------------------------------------------------------------ weakly entangled states
+
+WEAK_REL = ["1/100000000", "1/1000000000", "1/10000000000", "1/1000000000000"]   # 1e-8, 1e-9, 1e-10, 1e-12
+
+
+def make_weak_case(rng, dA, dB, n_small, rel, big=None):
+    """planted Schmidt vector with `n_small` coefficients of relative size `rel` next to O(1) ones, exact Cayley local unitaries"""
+    m = min(dA, dB)
+    n_small = min(n_small, m - 1)
+    n_big = int(rng.integers(1, m - n_small + 1)) if big is None else big
+    bigs = [Fraction(int(rng.integers(3, 10)), 10) for _ in range(n_big)]
+    smalls = [Fraction(rel) * int(rng.integers(1, 8)) for _ in range(n_small)]
+    vals = bigs + smalls
+    slots = sorted(rng.choice(m, size=len(vals), replace=False).tolist())
+    order = rng.permutation(len(vals))
+    s = [Fraction(0)] * m
+    for pos, idx in zip(slots, order):
+        s[pos] = vals[int(idx)]
+    ident = bool(rng.integers(3) == 0)
+    U = xm_eye(dA) if ident else exact_cayley(rng, dA)
+    V = xm_eye(dB) if ident else exact_cayley(rng, dB)
+    return {"kind": "weak", "dA": dA, "dB": dB, "s": [str(x) for x in s], "rel": rel, "rotated": not ident, "U": xm_json(U), "V": xm_json(V)}
+
+
+def check_weak(ctx, case):
+    dA, dB = case["dA"], case["dB"]
+    m = min(dA, dB)
+    t = Tally(ctx, "weak", case, "C14.schmidtRank_closed_form (the Schmidt rank counts the non-zero s_i, however small) / schmidtRankVec_eq_rank / isProduct_iff_minors")
+    s = [Fraction(x) for x in case["s"]]
+    pl = ctx.lean().ask("c14_planted", {"dA": dA, "dB": dB, "s": [rj(x) for x in s], "U": case["U"], "V": case["V"]})
+    r = sum(1 for x in s if x != 0)
+    if not (pl["unitaryU"] and pl["unitaryV"] and pl["rank"] == pl["support"] == r):
+        t.fail("weakly entangled planted state: Lean model self-check failed (unitarity / exact rank = support) (model defect)", model={k: v for k, v in pl.items() if k != "psi"})
+        return
+    psi = xm_float([cq_of_lean(p) for p in pl["psi"]])
+    smax = float(max(s))
+    smin = float(min(x for x in s if x != 0))
+    planted = sorted((float(x) for x in s if x != 0), reverse=True)
+
+    def reg(fn, form, dform):
+        ctx.case({"fn": fn, "weak": True, "input": form, "dim": dform, "dA": dA, "dB": dB, "s": case["s"], "rot": case["rotated"], "U": case["U"]["re"][:4]}, True,
+                 f"weak/{fn}/{form}/dim={dform}/rel={case['rel']}")
+
+    inputs = {"vec1d": psi, "col": psi.reshape(-1, 1)}
+    for form, x in inputs.items():
+        for dform, dim in dim_forms(dA, dB):
+            reg("schmidt_rank", form, dform)
+            res = with_dim(schmidt_rank, x, dim=dim)
+            if res[0] != "ok" or res[1] != r:
+                t.fail(f"schmidt_rank({form}, dim={dform}) = {res[1]!r} on a state with {r} non-zero Schmidt coefficients {case['s']} on {dA}x{dB} "
+                       f"(smallest / largest = {smin / smax:.1e}, far above the rank cut-off ~1e-15)",
+                       function="schmidt_rank", input=form, dim_form=dform, dA=dA, dB=dB, impl=repr(res[1]), expected=r)
+            reg("is_product", form, dform)
+            res = with_dim(is_product, x, dim=dim)
+            verdict = None
+            if res[0] == "ok":
+                try:
+                    verdict = bool(np.asarray(res[1][0]).reshape(-1)[0])
+                except Exception:  # noqa: BLE001
+                    verdict = None
+            if verdict is None or verdict != (r == 1):
+                t.fail(f"is_product({form}, dim={dform}) -> {res[1] if res[0] != 'ok' else verdict!r} on a state with Schmidt coefficients {case['s']} ({dA}x{dB})",
+                       function="is_product", input=form, dim_form=dform, impl=(res[1] if res[0] != "ok" else repr(verdict)), expected=(r == 1))
+            reg("schmidt_decomposition", form, dform)
+            res = _call(schmidt_decomposition, x, dim) if dim is not None else _call(schmidt_decomposition, x)
+            if res[0] != "ok":
+                t.fail(f"schmidt_decomposition({form}, dim={dform}) raised {res[1]}", function="schmidt_decomposition", input=form, dim_form=dform, impl=res[1])
+            else:
+                sv = np.asarray(res[1][0]).reshape(-1)
+                if len(sv) != r or any(abs(a - b) > 1e-14 * smax + 1e-9 * b for a, b in zip(sv, planted)):
+                    t.fail(f"schmidt_decomposition({form}, dim={dform}) returns the coefficients {sv.tolist()}, planted {planted} ({dA}x{dB})",
+                           function="schmidt_decomposition", input=form, dim_form=dform, impl=sv.tolist(), expected=planted)
+    # S(k) vector norm: the k largest squares (the small coefficients matter only from the rank on)
+    for k in range(1, m + 1):
+        want = math.sqrt(sum(x * x for x in planted[:k]))
+        reg("sk_vector_norm", "vec1d", f"list/k={k}")
+        res = _call(sk_vector_norm, psi, k, [dA, dB])
+        if res[0] != "ok" or not close(res[1], want, TOL, scale=smax):
+            t.fail(f"sk_vector_norm(k={k}) = {res[1]!r}, expected {want!r} ({case['s']})", function="sk_vector_norm", k=k, impl=repr(res[1]), expected=want)
+
+
 # ------------------------------------------------------------------------------------------------ driver
 
-CHECKS = {"pure": check_pure, "mixed": check_mixed, "additive": check_additive, "product": check_product, "oprank": check_oprank, "sk": check_sk}
+CHECKS = {"pure": check_pure, "mixed": check_mixed, "additive": check_additive, "product": check_product, "oprank": check_oprank, "sk": check_sk,
+          "skcert": check_skcert, "weak": check_weak}
+POOLED = ("skcert",)
 
 
 def run_case(ctx, case):
@@ -1118,6 +1533,40 @@ def _round(rng, thorough):
             tasks.append(make_product_case(rng, dims, opr, None, 0, real=True))
             i, j = sorted(int(t) for t in rng.choice(n, size=2, replace=False))
             tasks.append(make_product_case(rng, dims, opr, (i, j), int(rng.integers(0, 3)), real=True))
+    # ---- weakly entangled states: Schmidt coefficients of relative size 1e-8 ... 1e-12 (three orders of magnitude above every rank cut-off)
+    weak_sizes = [(2, 2), (2, 3), (3, 2), (3, 3), (3, 4), (4, 4)] + ([(4, 2), (2, 4), (4, 3)] if thorough else [])
+    for i, (dA, dB) in enumerate(weak_sizes):
+        for j, rel in enumerate(WEAK_REL):
+            if thorough or (i + j) % 2 == 0:
+                tasks.append(make_weak_case(rng, dA, dB, 1 + int(min(dA, dB) >= 3 and rng.integers(2)), rel))
+    tasks.append(make_weak_case(rng, 2, 2, 1, "1/1000000000", big=1))
+    for dims in [(2, 2), (2, 3), (3, 2), (3, 4), (4, 4)]:
+        for shift in (27, 30, 33, 37):
+            if thorough or rng.integers(2):
+                tasks.append(make_product_case(rng, dims, False, (0, 1), shift, real=bool(rng.integers(2))))
+    for dims in [(2, 2), (2, 3), (3, 2)]:
+        for shift in (27, 30, 33):
+            if thorough or rng.integers(2):
+                tasks.append(make_product_case(rng, dims, True, (0, 1), shift))
+    # ---- S(k) operator norm with a certified two-sided bracket (run in the process pool)
+    ces_ranks = {(2, 3): [1, 2], (2, 4): [1, 2, 3], (3, 3): [1, 2, 3, 4], (3, 4): [2, 3, 6] + ([1, 4, 5] if thorough else [])}
+    for (dA, dB), ranks in ces_ranks.items():
+        for r in ranks:
+            tasks.append(make_skcert_case(rng, dA, dB, 1, "ces", r=r, c=["1", "5/2", "3/10"][r % 3]))
+    tasks.append(make_skcert_case(rng, 3, 3, 2, "ces", r=4))
+    tasks.append(make_skcert_case(rng, 3, 4, 2, "ces", r=6))
+    for (dA, dB, r) in [(2, 4, 3), (3, 3, 4), (3, 3, 2), (2, 3, 2), (3, 4, 6), (4, 2, 3), (3, 2, 2)]:
+        tasks.append(make_skcert_case(rng, dA, dB, 1, "ces" if rng.integers(2) else "cesrand", r=r, rot=True))
+    for (dA, dB, r) in [(2, 3, 2), (3, 3, 3), (2, 4, 3), (3, 2, 4)]:
+        tasks.append(make_skcert_case(rng, dA, dB, 1, "prodproj", r=r, c=["1", "7/4"][int(rng.integers(2))]))
+    for (dA, dB, k, r) in [(2, 2, 1, 3), (2, 3, 1, 4), (3, 2, 1, 6), (3, 3, 1, 3), (3, 3, 2, 5), (2, 4, 1, 8), (3, 3, 3, 9), (2, 3, 2, 3), (4, 2, 1, 2)]:
+        tasks.append(make_skcert_case(rng, dA, dB, k, "psd", r=r))
+    for (dA, dB, k) in [(2, 2, 1), (2, 3, 1), (3, 3, 1), (3, 3, 2)]:
+        tasks.append(make_skcert_case(rng, dA, dB, k, "indef"))
+    tasks.append(make_skcert_case(rng, 2, 3, 1, "zero"))
+    for (dA, dB) in [(2, 2), (2, 3), (3, 3)] + ([(3, 2), (2, 4)] if thorough else []):
+        for sh in ("3/20", "-3/20"):
+            tasks.append(make_skcert_case(rng, dA, dB, 1, "witness", s=sh))
     return tasks
 
 
@@ -1127,9 +1576,14 @@ def run(ctx, model_ok=True):
         return
     tasks = generate(ctx)
     for case in tasks:
-        run_case(ctx, case)
+        if case["kind"] not in POOLED:
+            run_case(ctx, case)
+    run_pool(ctx, pooled_work, [case for case in tasks if case["kind"] in POOLED])
+    ctx.extra["tolerances"] = {"TOL": TOL, "TOL_DEC": TOL_DEC, "TOL_INV": TOL_INV, "TOL_SQRT": TOL_SQRT, "TOL_SDP": TOL_SDP, "WIDTH_OK": WIDTH_OK}
     ctx.extra["partial_clauses"] = [
-        "S(k) operator norm / block positivity: one-sided certification (upper bound against explicit Schmidt-rank-<=k vectors; two-sided only on operators with a closed form)",
+        "S(k) operator norm: two-sided certified bracket for positive semidefinite operators (lower bound of toqito <= verified upper bound UB of the PPT (k = 1) / "
+        "reduction-map (any k) relaxation, upper bound of toqito >= value LB of a verified vector of Schmidt rank <= k); where the relaxation is not tight (UB - LB > 1e-3, "
+        "counted as sk_cert/uncertified-wide) the lower side is certified only up to the relaxation gap; indefinite Hermitian operators: attained values only (one-sided)",
         "trace norm of the partial transpose: proved as the trace of the positive square root (C14.negativity_planted, C14.traceNorm_pT_pure); the identification with numpy's nuclear norm (sum of singular values) is the standard fact ||X||_1 = tr sqrt(X^H X)",
     ]
 
